@@ -50,6 +50,14 @@ def hChampQuery : Handler := fun j => do
     let pubM := (findChampionPublic s).bind fun c => s.orgs.findIdx? (·.uid == c.uid)
     if alien then corr := corr ++ [s!"species {s.id}: FindChampion answers an organism that is no member"]
     if pubM != pubI then corr := corr ++ [s!"species {s.id}: FindChampion model {pubM} vs impl {pubI}"]
+    -- ComputeMaxAndAvgFitness (running total left to right: bit for bit)
+    let mxI ← fldF sj "max"
+    let avI ← fldF sj "avg"
+    let (mxM, avM) := computeMaxAndAvgFitness s
+    if !bitEq mxM mxI || !bitEq avM avI then corr := corr ++ [s!"species {s.id}: ComputeMaxAndAvgFitness differs"]
+    if why == "" then
+      if s.orgs.any (fun x => mxI < x.fitness) || (mxI != 0.0 && !s.orgs.any (fun x => x.fitness == mxI)) then
+        why := s!"species {s.id}: ComputeMaxAndAvgFitness: max is not the greatest member fitness (or 0)"
     if size s != sizeI then corr := corr ++ [s!"species {s.id}: Size model {size s} vs impl {sizeI}"]
     if s.orgs.map checkChampionChildDamaged != dmgI then corr := corr ++ [s!"species {s.id}: CheckChampionChildDamaged differs"]
     match findChampionSort s, errI with
@@ -72,6 +80,23 @@ def hChampQuery : Handler := fun j => do
       let w4 := if w3 != "" then w3 else if sizeI != s.orgs.length then "Size is not the number of members" else ""
       let w5 := if w4 != "" then w4 else if errI.isNone then agreeWhy s.orgs pubI sortI else ""
       if w5 != "" then why := s!"species {s.id}: " ++ w5
+  -- sort.Sort(ByOrganismFitness) and its reverse on copies of the species list (after the queries above)
+  let byFitI ← arrNat (← fld out "byFit")
+  let byFitDescI ← arrNat (← fld out "byFitDesc")
+  let posOfSp (l : List (Species Float)) : List Nat := l.map fun s => (species'.findIdx? (·.id == s.id)).getD species'.length
+  if posOfSp (sortSpeciesByFitness species') != byFitI then corr := corr ++ ["order after sort.Sort(ByOrganismFitness) differs (goSort)"]
+  if posOfSp (sortSpeciesByFitnessDesc species') != byFitDescI then corr := corr ++ ["order after sort.Sort(Reverse(ByOrganismFitness)) differs (goSort)"]
+  if why == "" then
+    let maxOf (k : Nat) : Float := match species'[k]? with
+      | some s => (computeMaxAndAvgFitness s).1
+      | none => 0.0
+    let rec mono (up : Bool) : List Nat → Bool
+      | a :: b :: rest => (if up then !(maxOf b < maxOf a) else !(maxOf a < maxOf b)) && mono up (b :: rest)
+      | _ => true
+    if !GenStatsSpec.permBy (· == ·) (List.range species'.length) byFitI || !mono true byFitI then
+      why := "sort.Sort(ByOrganismFitness): not a permutation with non-decreasing species maxima"
+    else if !GenStatsSpec.permBy (· == ·) (List.range species'.length) byFitDescI || !mono false byFitDescI then
+      why := "sort.Sort(Reverse(ByOrganismFitness)): not a permutation with non-increasing species maxima"
   let p' : Pop Float := { p with species := species' }
   match jsonDiff "after" (jPop p') (jPop pI) with
   | some d => corr := corr ++ [d]
